@@ -1326,3 +1326,24 @@ pub fn run(report: &mut Report, replay: Option<&Value>) {
     report.count_extra("cases", cases as u64);
     report.count_extra("failing_cases", failing_cases);
 }
+
+/// Entry point of the libFuzzer target `c15_response`: the bytes are tried (a) as a JSON response
+/// body (kept only if it is inside the spec grammar, then checked against the expectation built
+/// by the reference reader) and (b) as a choice tape for the structured generator.
+/// Err(summary) = the property is violated for this input.
+pub fn fuzz_one(data: &[u8]) -> Result<(), String> {
+    let mut ctx = Ctx::default();
+    if let Ok(text) = std::str::from_utf8(data) {
+        if let Ok(v) = serde_json::from_str::<Value>(text) {
+            if let Ok(b) = body_from_value(&v) {
+                let r = catch_unwind(AssertUnwindSafe(|| check_body(&b, &[("fuzzer json", text.to_string())], &mut ctx)));
+                match r {
+                    Ok(Ok(())) => {}
+                    Ok(Err(f)) => return Err(format!("[{}] {} expected {} observed {}", f.check, f.summary, f.expected, f.observed)),
+                    Err(_) => return Err("panic while checking a JSON body".into()),
+                }
+            }
+        }
+    }
+    check_tape(data, &mut ctx).map_err(|f| format!("[{}] {} expected {} observed {}", f.check, f.summary, f.expected, f.observed))
+}
